@@ -2,9 +2,29 @@
 serialise, find an (untrusted) certificate, let the Coq kernel evaluate the
 verified validator ADC.Core.Equiv.check_equiv, and on rejection search for a
 concrete failing model with the independent numeric evaluator."""
+import contextlib
+import signal
 import adcio
 import certfind
 import numeric
+
+
+class TimeLimit(Exception):
+    pass
+
+
+@contextlib.contextmanager
+def time_limit(seconds):
+    """bound the run time of a library call (main thread only)"""
+    def handler(signum, frame):
+        raise TimeLimit(f"time limit of {seconds} s exceeded")
+    old = signal.signal(signal.SIGALRM, handler)
+    signal.alarm(int(seconds))
+    try:
+        yield
+    finally:
+        signal.alarm(0)
+        signal.signal(signal.SIGALRM, old)
 
 
 class Pair:
